@@ -13,7 +13,8 @@ import time
 
 VERIF = os.path.dirname(os.path.dirname(os.path.dirname(os.path.abspath(__file__))))
 REPO = os.environ.get("VERIF_REPO", "/repo")
-WORK = os.path.join(VERIF, "work")
+WORK = os.environ.get("VERIF_WORK") or os.path.join(VERIF, "work")
+EVIDENCE = os.environ.get("VERIF_EVIDENCE") or os.path.join(VERIF, "evidence")
 SPEC = os.path.join(VERIF, "spec")
 HARNESS = os.path.join(VERIF, "harness")
 NPROC = int(os.environ.get("VERIF_NPROC", "0")) or min(16, os.cpu_count() or 4)
@@ -42,12 +43,28 @@ def fresh_dir(name):
     return d
 
 
+def harness_src():
+    """The harness module builds against /repo (go.mod replace). When another
+    tree is to be checked (VERIF_REPO: scratch worktrees with seeded changes), a
+    scratch copy of the module with the replace directive redirected is used."""
+    if os.path.abspath(REPO) == "/repo":
+        return HARNESS
+    d = os.path.join(WORK, "harness-src")
+    shutil.rmtree(d, ignore_errors=True)
+    shutil.copytree(HARNESS, d, ignore=shutil.ignore_patterns("bin"))
+    gm = os.path.join(d, "go.mod")
+    txt = open(gm).read().replace("=> /repo", "=> " + os.path.abspath(REPO))
+    open(gm, "w").write(txt)
+    return d
+
+
 def build_harness(race=False, pkg="./drv", out="drv.test"):
-    """(Re)build the harness test binary against /repo's current working tree."""
+    """(Re)build the harness test binary against the repository's current working tree."""
     os.makedirs(os.path.join(WORK, "bin"), exist_ok=True)
+    src = harness_src()
     # keep go.sum in step with the repository's
     try:
-        shutil.copyfile(os.path.join(REPO, "go.sum"), os.path.join(HARNESS, "go.sum"))
+        shutil.copyfile(os.path.join(REPO, "go.sum"), os.path.join(src, "go.sum"))
     except OSError:
         pass
     target = os.path.join(WORK, "bin", out + (".race" if race else ""))
@@ -56,7 +73,7 @@ def build_harness(race=False, pkg="./drv", out="drv.test"):
     if race:
         env["CGO_ENABLED"] = "1"
         cmd.insert(2, "-race")
-    r = sh(cmd, cwd=HARNESS, env=env)
+    r = sh(cmd, cwd=src, env=env)
     if r.returncode != 0:
         raise Infra("harness does not build against %s with -tags verif:\n%s" % (REPO, r.stdout[-4000:]))
     return target
